@@ -252,6 +252,9 @@ def run(ctx):
             ctx.notes.append('stale finding: C02-addition-group-mandatory (%s) no longer reproduces' % codec)
         else:
             ctx.known_finding('C02-addition-group-mandatory', 'witness: %s treats the members of an absent [[ addition group ]] as mandatory (%s)' % (codec, r[1]))
+    # members that share a name and a referenced type, each with its own use (SIZE / OPTIONAL / DEFAULT / tag): the compiled-type cache
+    from .. import aliasfam
+    aliasfam.run_c01(ctx, ctx.rng, ctx.n(60, 800), impl, ['jer', 'xer'], py_equal, only_text_safe=True)
 
 
 def replay(ctx, path):
